@@ -1,6 +1,23 @@
+"""C09 - arithmetic primitives agree with their mathematical definition.
+
+Two stages run the same driver (harness/w_c09.cc): the complete sweeps on the -O2 ("fast") library and
+a thinned copy (every SAN_FRAC-th sweep case, all conversion/Bigint cases) on the ASan+UBSan library.
+Every evaluation is compared in the driver with GMP called directly; the sampled records are
+recomputed by ref/c09_ref.py (python integers) in post()."""
 from . import stage
+from .. import runner
+
+import c09_ref
 
 FLAVOURS = ["san", "fast"]
+SAN_FRAC = 10
+
+
+# the workload is allocation-bound (one malloc per mpz temporary): a smaller quarantine and shorter allocation
+# stacks keep the ASan stage within the budget; detection of overflows / use-after-free is unaffected for
+# the short-lived objects involved
+SAN_ENV = {"ASAN_OPTIONS": runner.SAN_ENV["ASAN_OPTIONS"].replace("malloc_context_size=8", "malloc_context_size=4") +
+           ":quarantine_size_mb=32"}
 
 
 def prebuild(repo):
@@ -8,6 +25,79 @@ def prebuild(repo):
     stage("w_c09", repo, flavour="san")
 
 
+def post(recs, merged):
+    viols, stats = c09_ref.check_records(recs)
+    merged["obs"]["python_offline_checker"] = {k: dict(records=v[0], judged=v[1]) for k, v in sorted(stats.items())}
+    merged["obs"]["python_records_total"] = sum(v[0] for v in stats.values())
+    merged["obs"]["python_records_judged"] = sum(v[1] for v in stats.values())
+    merged["counts"]["py.records_judged"] = merged["obs"]["python_records_judged"]
+    return viols
+
+
+POW = ["tmcg_mpz_spowm", "tmcg_mpz_spowm_baseblind", "tmcg_mpz_spowm_calc", "tmcg_mpz_fpowm", "tmcg_mpz_fpowm_ui",
+       "tmcg_mpz_fspowm"]
+SQ = ["tmcg_mpz_sqrtmp", "tmcg_mpz_sqrtmp_r", "tmcg_mpz_sqrtmp_fast", "tmcg_mpz_sqrtmn", "tmcg_mpz_sqrtmn_r",
+      "tmcg_mpz_sqrtmn_fast", "tmcg_mpz_sqrtmn_all", "tmcg_mpz_sqrtmn_r_all", "tmcg_mpz_sqrtmn_fast_all", "tmcg_mpz_qrmn_p"]
+PR = ["sprime", "smprime", "sprime_naive", "smprime_naive", "sprime_noninc", "sprime2g", "sprime3mod4", "lprime",
+      "lprime_prefix", "oprime", "oprime_noninc"]
+
+
 def spec(tier, seed, repo):
-    return dict(stages=[stage("w_c09", repo, flavour="fast", nshards=16, case_timeout=600)],
-                level="exploration", rule="tbd", assumptions=[], floors={})
+    quick = tier == "quick"
+    floors = {}
+    for f in POW:
+        floors["pw.%s.judged" % f] = 50000
+    floors["pw.tmcg_mpz_fpowm_ui.judged"] = 20000
+    for f in ("tmcg_mpz_fpowm", "tmcg_mpz_fspowm", "tmcg_mpz_spowm"):
+        floors["pw.%s.documented_refusal_observed" % f] = 500
+    for c in ("0", "+1", "-1", "+2", "-2", "q-1", "q", "q+1", "neg(q-1|q|q+1)", "2^t-1(+-)", "exactly-t-bits(+-)",
+              "t+1-bits(+-)", "2^2048-1(+-)", "2^2048(+-)", "ULONG_MAX"):
+        floors["pw.expclass." + c] = 500
+    floors["pw.wrong_table_base_refused"] = 500
+    floors["pw.zero_modulus_precompute_refused"] = 20
+    for f in SQ:
+        floors["sq.%s.judged" % f] = 100000
+    for c in ("1", "3", "5", "7"):
+        floors["sq.residues_p_%smod8" % c] = 10000
+    floors["sq.branch_5mod8_a^((p-1)/4)=-1"] = 5000
+    floors["sq.branch_1mod8_even_order(nonresidue_loop)"] = 20000
+    floors["sq.branch_1mod8_odd_order(early_exit)"] = 1000
+    floors["sq.1mod8_residue_2adic_order_16"] = 5
+    floors["sq.1mod8_residue_2adic_order_25"] = 100
+    floors["sq.blum_moduli"] = 276
+    floors["ip.distinct_abscissae_interpolated"] = 5000000
+    floors["ip.colliding_abscissae_refused"] = 20000
+    floors["ip.size_4"] = 5000000
+    floors["ip.size_8"] = 100
+    for f in PR:
+        floors["pr.tmcg_mpz_%s.draws_judged" % f] = 20
+    floors["cv.roundtrips_judged"] = 3000
+    floors["bi.sequences"] = 48
+    floors["bi.secure_target_plain_operand(conversion path)"] = 200
+    for op in ("add", "sub", "mul", "div", "mod", "mod_ui", "neg", "abs", "mul2exp", "powm", "powm_ui", "compare",
+               "compare_ui", "get_ui", "size2", "probab_prime", "assign"):
+        floors["bi.op." + op] = 100
+    floors["py.records_judged"] = 60000
+    ct = 300 if quick else 2400
+    return dict(
+        stages=[stage("w_c09", repo, flavour="fast", nshards=16, case_timeout=ct, label="w_c09 complete sweeps (-O2)"),
+                stage("w_c09", repo, flavour="san", nshards=16, case_timeout=ct, args=["--opt", "frac=%d" % SAN_FRAC], env=SAN_ENV,
+                      label="w_c09 1/%d of the sweep cases (ASan+UBSan)" % SAN_FRAC)],
+        level="exploration",
+        rule="one case = one modulus / group of primes / prime pair / abscissa prefix / generator call / operation "
+             "sequence; evaluations = library results compared with the reference (GMP mpz_powm, Euler criterion + "
+             "explicit squaring, machine-word Horner evaluation, own Miller-Rabin, GMP big-int model) or documented "
+             "refusals checked; distinct = judged (function, input) tuples, distinct by construction (exponent lists "
+             "are de-duplicated, residues/abscissae enumerated once); 'not judged' classes (base not coprime, exponent "
+             "beyond the precomputed table, non-residues, negative conversions) are counted separately",
+        assumptions=["exponentiation is judged for bases coprime to an odd modulus > 1 and exponents within the "
+                     "precomputed table length; longer exponents (still <= TMCG_MAX_FPOWM_T) are recorded only",
+                     "square roots are judged for units that are squares (both Legendre symbols +1); zero, "
+                     "non-residues and non-unit squares are counted only; p = 2 is outside the algorithms' domain",
+                     "interpolation moduli are prime; primes of the references come from mpz_nextprime-style search "
+                     "in the driver, primality of generator output by own Miller-Rabin (C++ and Python, 40 bases)",
+                     "TMCG_Bigint: operands non-negative (negative results are compared by sign + magnitude and "
+                     "normalised with abs/neg before reuse), divisors non-zero, random-number members not compared",
+                     "conversion judged for 0 <= v < 2^8192 (well inside the TMCG_MAX_VALUE_CHARS buffer)"],
+        floors=floors, post=post,
+        extra_cov=dict(san_stage_fraction="1/%d" % SAN_FRAC))
